@@ -1,17 +1,15 @@
 /-
-  C37 — Malformed private key files fail with SSHException.   (PARTIAL: container level)
-  Property theorems only.  Model: PV/Model/PKeyFile.lean.
+  C37 — Malformed private key files fail with SSHException.   (PARTIAL: RSA/ECDSA halves agreement is the primitive's)
+  Property theorems only.  Model: PV/Model/PKeyFile.lean (+ PKeyText.lean for the text level).
 
-  Full statement (target): for every file, class and passphrase the loader's outcome is
+  Target: for every file, class and passphrase the loader's outcome is
       ok | SSHException | PasswordRequiredException,  and ok ⇒ public and private halves agree.
-  Proved here for the container readers (everything after armor/base64), for all bytes, all
-  passphrases and every behaviour of the third-party calls allowed by `PrimSpec`:
-    * PEM/DER route: the full target (`pem_outcome`);
-    * OpenSSH container read by RSAKey/ECDSAKey: the target, except one call site that still lets
-      `UnicodeDecodeError` through (`openssh_outcome`, `openssh_partial`, `openssh_nonutf8_cipher_witness`);
-    * Ed25519 reader: the target, except one call site that lets `KeyError` through
-      (`ed_outcome`, `ed_partial`, `ed_aead_cipher_witness`);
-    * an Ed25519 key that loads has the verify key derived from its seed (`ed_ok_halves_agree`).
+  Proved for all bytes, all passphrases and every behaviour of the third-party calls allowed by `PrimSpec`:
+    * PEM/DER route (`pem_outcome`), OpenSSH container read by RSAKey/ECDSAKey (`openssh_outcome`),
+      Ed25519 reader (`ed_outcome`): only the target outcomes;
+    * an Ed25519 key that loads has the verify key derived from its seed (`ed_ok_halves_agree`);
+    * the two call sites that were still open before the last two `fix:` commits are kept as
+      `legacy_*_witness`.
 -/
 import PV.Model.PKeyFile
 namespace PV.Props.C37
@@ -64,70 +62,52 @@ private theorem kdf_decrypt_cls (P : Prims) (S : PrimSpec P) (pw salt blob : Byt
   · exact S.decrypt_cls _ _ _ _ _ _ h
 
 private theorem osshDecrypt_outcome (P : Prims) (S : PrimSpec P) (cipher kdfname kdfopts blob : Bytes)
-    (pw : Option Bytes) (c : Cls) (h : osshDecrypt P cipher kdfname kdfopts blob pw = .error c) :
-    c.isSSH = true ∨ (c = .unicodeDecodeError ∧ kdfname = nBcrypt ∧ utf8Valid cipher = false) := by
+    (pw : Option Bytes) (c : Cls) (h : osshDecrypt false P cipher kdfname kdfopts blob pw = .error c) :
+    c.isSSH = true := by
   unfold osshDecrypt at h
   simp only at h
   split at h
-  · next hk =>
-    split at h
+  · split at h
     · next e hm =>
       simp at h; subst h
       repeat' (split at hm)
-      all_goals (first | (simp at hm; done) | skip)
-      · simp at hm; subst hm; exact Or.inl rfl
-      · next hu => simp at hm; subst hm; exact Or.inr ⟨rfl, hk, by simpa using hu⟩
+      all_goals (first | (simp at hm; done) | (simp at hm; subst hm; rfl) | simp_all)
     · split at h
-      · simp at h; subst h; exact Or.inl rfl
+      · simp at h; subst h; rfl
       · split at h
-        · next e he => simp at h; subst h; exact Or.inl (by rw [cStr_err he]; rfl)
+        · next e he => simp at h; subst h; rw [cStr_err he]; rfl
         · split at h
-          · next e he => simp at h; subst h; exact Or.inl (by rw [cU32_err he]; rfl)
+          · next e he => simp at h; subst h; rw [cU32_err he]; rfl
           · rcases catchVE_err h with h1 | ⟨h1, h2⟩
-            · subst h1; exact Or.inl rfl
+            · subst h1; rfl
             · have := kdf_decrypt_cls P S _ _ _ _ _ _ _ _ _ c h1
               simp [h2] at this
   · split at h
     · simp at h
-    · simp at h; subst h; exact Or.inl rfl
+    · simp at h; subst h; rfl
 
-/-- every failure of the container reader is SSHException / PasswordRequired, or the one remaining
-    escape: `UnicodeDecodeError` from formatting a non-UTF-8 cipher name into the error message -/
+/-- every failure of the container reader is SSHException / PasswordRequiredException -/
 theorem readOpenssh_outcome (P : Prims) (S : PrimSpec P) (data : Bytes) (pw : Option Bytes) (c : Cls)
-    (h : readOpenssh P data pw = .error c) :
-    c.isSSH = true ∨ (c = .unicodeDecodeError ∧ ∃ cipher i,
-      cStr (data.drop 15) 0 = .ok (cipher, i) ∧ utf8Valid cipher = false) := by
+    (h : readOpenssh false P data pw = .error c) : c.isSSH = true := by
   unfold readOpenssh at h
   simp only at h
   repeat' (split at h)
-  all_goals (try (simp at h; subst h; exact Or.inl rfl))
+  all_goals (try (simp at h; subst h; rfl))
   all_goals (try (rename_i he; simp at h; subst h; first
-    | exact Or.inl (by rw [cStr_err he]; rfl) | exact Or.inl (by rw [cU32_err he]; rfl)
-    | (rcases osshDecrypt_outcome P S _ _ _ _ _ _ he with h1 | ⟨h1, _, h3⟩
-       · exact Or.inl h1
-       · exact Or.inr ⟨h1, _, _, by assumption, h3⟩)))
-  all_goals (try (exact Or.inl (by rw [unpad_err h]; rfl)))
+    | (rw [cStr_err he]; rfl) | (rw [cU32_err he]; rfl)
+    | exact osshDecrypt_outcome P S _ _ _ _ _ _ he))
+  all_goals (try (rw [unpad_err h]; rfl))
 
-/-- RSAKey / ECDSAKey reading an OpenSSH-format file -/
+/-- RSAKey / ECDSAKey reading an OpenSSH-format container: only the target outcomes -/
 theorem openssh_outcome (P : Prims) (S : PrimSpec P) (k : PKeyFile.Kind) (data : Bytes) (pw : Option Bytes) (c : Cls)
-    (h : loadOpenssh P k data pw = .error c) :
-    c.isSSH = true ∨ (c = .unicodeDecodeError ∧ ∃ cipher i,
-      cStr (data.drop 15) 0 = .ok (cipher, i) ∧ utf8Valid cipher = false) := by
+    (h : loadOpenssh false P k data pw = .error c) : c.isSSH = true := by
   unfold loadOpenssh at h
   split at h
   · next e he => simp at h; subst h; exact readOpenssh_outcome P S data pw _ he
   · cases k <;> simp only at h
-    · unfold rsaFromKeydata at h; exact Or.inl (by rw [catchAll_err h]; rfl)
-    · unfold ecFromKeydata at h; exact Or.inl (by rw [catchAll_err h]; rfl)
-    · simp at h; subst h; exact Or.inl rfl
-
-/-- `_partial`: when the cipher-name field of the container is text, the reader meets the target -/
-theorem openssh_partial (P : Prims) (S : PrimSpec P) (k : PKeyFile.Kind) (data : Bytes) (pw : Option Bytes) (c : Cls)
-    (hutf : ∀ cipher i, cStr (data.drop 15) 0 = .ok (cipher, i) → utf8Valid cipher = true)
-    (h : loadOpenssh P k data pw = .error c) : c.isSSH = true := by
-  rcases openssh_outcome P S k data pw c h with h1 | ⟨_, cipher, i, hc, hu⟩
-  · exact h1
-  · rw [hutf cipher i hc] at hu; cases hu
+    · unfold rsaFromKeydata at h; rw [catchAll_err h]; rfl
+    · unfold ecFromKeydata at h; rw [catchAll_err h]; rfl
+    · simp at h; subst h; rfl
 
 /-! toy primitives: make the witnesses and the examples executable -/
 
@@ -150,10 +130,13 @@ theorem toyP_spec : PrimSpec toyP where
 def nonUtf8CipherFile : Bytes :=
   magic ++ encStr [0xff] ++ encStr nBcrypt ++ encStr [] ++ be32 1 ++ encStr [] ++ encStr []
 
-/-- known finding `UnicodeDecodeError@pkey.py:_read_private_key_openssh`: still escapes -/
-theorem openssh_nonutf8_cipher_witness :
-    loadOpenssh toyP .rsa nonUtf8CipherFile (some [120]) = .error .unicodeDecodeError ∧
-    loadOpenssh toyP .ec nonUtf8CipherFile none = .error .unicodeDecodeError := by
+/-- before `fix: … non-UTF-8 cipher name …` the strict decode inside the error message let
+    `UnicodeDecodeError` escape; now the file is refused with SSHException -/
+theorem legacy_openssh_nonutf8_cipher_witness :
+    loadOpenssh true toyP .rsa nonUtf8CipherFile (some [120]) = .error .unicodeDecodeError ∧
+    loadOpenssh true toyP .ec nonUtf8CipherFile none = .error .unicodeDecodeError ∧
+    loadOpenssh false toyP .rsa nonUtf8CipherFile (some [120]) = .error .sshException ∧
+    loadOpenssh false toyP .ec nonUtf8CipherFile none = .error .sshException := by
   decide +kernel
 
 /-! ## Ed25519 reader -/
@@ -237,8 +220,8 @@ private theorem edPlain_err (P : Prims) (S : PrimSpec P) {cipher ct salt : Bytes
         · simp at h; subst h; exact Or.inr (Or.inr ⟨rfl, _, _, _, hl⟩)
         · exact Or.inr (Or.inl (S.decrypt_cls _ _ _ _ _ _ h))
 
-private theorem edHeader_err (data : Bytes) (pw : Option Bytes) (c : Cls)
-    (h : edHeader data pw = .error c) : c.isSSH = true ∨ c.isValueError = true := by
+private theorem edHeader_err (lg : Bool) (data : Bytes) (pw : Option Bytes) (c : Cls)
+    (h : edHeader lg data pw = .error c) : c.isSSH = true ∨ c.isValueError = true := by
   unfold edHeader at h
   simp only at h
   split at h
@@ -259,29 +242,34 @@ private theorem edHeader_err (data : Bytes) (pw : Option Bytes) (c : Cls)
               · exact Or.inr rfl
             · simp at h
 
+/-- a header that parses names no cipher, or one that has a mode -/
 private theorem edHeader_cipher (data : Bytes) (pw : Option Bytes)
     (cipher salt : Bytes) (rounds nkeys : Nat) (pubs : List Bytes) (ct : Bytes)
-    (h : edHeader data pw = .ok (cipher, salt, rounds, nkeys, pubs, ct)) :
-    ∃ r, getTextM ((Rd.getBytes { content := data, pos := 0 } 15).2) = .ok (cipher, r) := by
+    (h : edHeader false data pw = .ok (cipher, salt, rounds, nkeys, pubs, ct)) :
+    cipher = nNone ∨ cipherUsable false cipher = true := by
   unfold edHeader at h
   simp only at h
   split at h
   · simp at h
   · split at h
     · simp at h
-    · next c0 m2 hc =>
-      split at h
+    · split at h
       · simp at h
       · split at h
         · simp at h
         · split at h
           · simp at h
-          · split at h
+          · next hcu =>
+            split at h
             · simp at h
             · simp at h
               obtain ⟨h1, _⟩ := h
-              subst h1
-              exact ⟨_, hc⟩
+              by_cases hn : cipher = nNone
+              · exact Or.inl hn
+              · right
+                rw [← h1] at hn ⊢
+                simp only [hn, ne_eq, not_false_eq_true, true_and, Bool.not_eq_true, Classical.not_not] at hcu
+                simpa using hcu
 
 private theorem edBody_err (P : Prims) (S : PrimSpec P) (pd : Bytes) (nkeys : Nat) (pubs : List Bytes) (c : Cls)
     (h : edBody P pd nkeys pubs = .error c) : c.isSSH = true ∨ c.isValueError = true := by
@@ -297,58 +285,39 @@ private theorem edBody_err (P : Prims) (S : PrimSpec P) (pd : Bytes) (nkeys : Na
   all_goals (simp at h)
 
 private theorem edParse_err (P : Prims) (S : PrimSpec P) (data : Bytes) (pw : Option Bytes) (c : Cls)
-    (h : edParse P data pw = .error c) :
-    c.isSSH = true ∨ c.isValueError = true ∨ (c = .keyError ∧ ∃ cipher r a ks bs,
-      getTextM ((Rd.getBytes { content := data, pos := 0 } 15).2) = .ok (cipher, r) ∧
-      cipherLookup cipher = some (a, ks, bs, none)) := by
+    (h : edParse false P data pw = .error c) : c.isSSH = true ∨ c.isValueError = true := by
   unfold edParse at h
   split at h
-  · next e he =>
-    simp at h; subst h
-    rcases edHeader_err data pw _ he with h1 | h1
-    · exact Or.inl h1
-    · exact Or.inr (Or.inl h1)
+  · next e he => simp at h; subst h; exact edHeader_err _ data pw _ he
   · next cipher salt rounds nkeys pubs ct hh =>
     split at h
     · next e he =>
       simp at h; subst h
-      rcases edPlain_err P S he with h3 | h3 | ⟨h3, a, ks, bs, h4⟩
+      rcases edPlain_err P S he with h3 | h3 | ⟨_, a, ks, bs, h4⟩
       · subst h3; exact Or.inl rfl
-      · exact Or.inr (Or.inl h3)
-      · obtain ⟨r, hr⟩ := edHeader_cipher data pw _ _ _ _ _ _ hh
-        exact Or.inr (Or.inr ⟨h3, cipher, r, a, ks, bs, hr, h4⟩)
-    · rcases edBody_err P S _ _ _ _ h with h1 | h1
-      · exact Or.inl h1
-      · exact Or.inr (Or.inl h1)
+      · exact Or.inr h3
+      · -- `cipher["mode"]` cannot fail: the header check refused ciphers without a mode
+        exfalso
+        rcases edHeader_cipher data pw _ _ _ _ _ _ hh with hn | hu
+        · have h0 : cipherLookup nNone = none := by decide
+          rw [hn, h0] at h4; cases h4
+        · unfold cipherUsable at hu; rw [h4] at hu; simp at hu
+    · exact edBody_err P S _ _ _ _ h
 
-/-- the Ed25519 reader: target outcomes, or the one remaining escape (`KeyError` from `cipher["mode"]`
-    when the container names an AEAD cipher of `Transport._cipher_info`) -/
+/-- the Ed25519 reader: only the target outcomes -/
 theorem ed_outcome (P : Prims) (S : PrimSpec P) (data : Bytes) (pw : Option Bytes) (c : Cls)
-    (h : loadEd P data pw = .error c) :
-    c.isSSH = true ∨ (c = .keyError ∧ ∃ cipher r a ks bs,
-      getTextM ((Rd.getBytes { content := data, pos := 0 } 15).2) = .ok (cipher, r) ∧
-      cipherLookup cipher = some (a, ks, bs, none)) := by
+    (h : loadEd false P data pw = .error c) : c.isSSH = true := by
   unfold loadEd at h
   rcases catchVE_err h with h1 | ⟨h1, h2⟩
-  · subst h1; exact Or.inl rfl
-  · rcases edParse_err P S data pw c h1 with h3 | h3 | h3
-    · exact Or.inl h3
+  · subst h1; rfl
+  · rcases edParse_err P S data pw c h1 with h3 | h3
+    · exact h3
     · rw [h3] at h2; cases h2
-    · exact Or.inr h3
-
-/-- `_partial`: unless the container names one of the AEAD ciphers, the Ed25519 reader meets the target -/
-theorem ed_partial (P : Prims) (S : PrimSpec P) (data : Bytes) (pw : Option Bytes) (c : Cls)
-    (hno : ∀ cipher r, getTextM ((Rd.getBytes { content := data, pos := 0 } 15).2) = .ok (cipher, r) →
-      ∀ a ks bs, cipherLookup cipher ≠ some (a, ks, bs, none))
-    (h : loadEd P data pw = .error c) : c.isSSH = true := by
-  rcases ed_outcome P S data pw c h with h1 | ⟨_, cipher, r, a, ks, bs, hg, hl⟩
-  · exact h1
-  · exact absurd hl (hno cipher r hg a ks bs)
 
 /-- a key that loads: its verify key is the one derived from its seed (the reader also compared it
     with both public copies stored in the file) -/
 theorem ed_ok_halves_agree (P : Prims) (data : Bytes) (pw : Option Bytes) (seed vk : Bytes)
-    (h : loadEd P data pw = .ok (seed, vk)) : P.edSeed seed = .ok vk := by
+    (h : loadEd false P data pw = .ok (seed, vk)) : P.edSeed seed = .ok vk := by
   unfold loadEd catchValueError at h
   split at h
   · next a ha =>
@@ -372,8 +341,11 @@ def aeadCipherFile : Bytes :=
   magic ++ encStr [97, 101, 115, 50, 53, 54, 45, 103, 99, 109, 64, 111, 112, 101, 110, 115, 115, 104, 46, 99, 111, 109]
     ++ encStr nBcrypt ++ encStr (encStr [115] ++ be32 1) ++ be32 0 ++ encStr []
 
-/-- known finding `KeyError@ed25519key.py:_parse_signing_key_data`: still escapes -/
-theorem ed_aead_cipher_witness : loadEd toyP aeadCipherFile (some [120]) = .error .keyError := by
+/-- before `fix: … rejects AEAD ciphers …` the lookup `cipher["mode"]` raised KeyError; now the
+    container is refused with SSHException -/
+theorem legacy_ed_aead_cipher_witness :
+    loadEd true toyP aeadCipherFile (some [120]) = .error .keyError ∧
+    loadEd false toyP aeadCipherFile (some [120]) = .error .sshException := by
   decide +kernel
 
 /-! ## PEM / DER route -/
